@@ -249,7 +249,50 @@ class C10(Spec):
         return us
 
 
-_SPECS = {'C08': C08, 'C09': C09, 'C10': C10, 'C01': C01, 'C02': C02, 'C03': C03, 'C04': C04, 'C05': C05, 'C06': C06, 'C07': C07}
+ELEM = {'R1': 'manif::R1', 'R3': 'manif::R3', 'SO2': 'manif::SO2', 'SE2': 'manif::SE2', 'SO3': 'manif::SO3', 'SE3': 'manif::SE3', 'SE_2_3': 'manif::SE_2_3', 'SGal3': 'manif::SGal3',
+        'R2': 'manif::R2', 'R7': 'manif::R7'}
+ELEM8 = ['R1', 'R3', 'SO2', 'SE2', 'SO3', 'SE3', 'SE_2_3', 'SGal3']
+
+
+def bundle_unit(src, names, scalar, build='ndebug', defs=(), shards=1):
+    name = 'Bundle_' + '_'.join(names) + '/' + scalar
+    ty = 'manif::Bundle<%s,%s>' % (scalar, ','.join(ELEM[n] for n in names))
+    return Unit(name, src, defs=['VF_GROUP_TYPE=' + ty, 'VF_UNIT="%s"' % name, 'VF_SCALAR=' + scalar] + list(defs), build=build, shards=shards)
+
+
+class C11(Spec):
+    engine = 'E5-progmatrix'
+    design_ref = 'DESIGN.md 4/C11'
+    technique = 'exhaustive matrix of generated bundle layouts (one program per layout), each operation compared with the per-element operation placed at harness-computed prefix-sum offsets'
+    level_text = ('quick: all 8 single-element bundles and all 64 ordered pairs over {R1,R3,SO2,SE2,SO3,SE3,SE_2_3,SGal3} (every group first and last, every combination of Dim/DoF/RepSize/matrix sizes), '
+                  '14 triples/quadruples (every group in the middle, repeated elements, the suite layouts) in double, 10 layouts in float; thorough: all 512 ordered triples. '
+                  'Every operation of the statement is compared with the per-element result placed at prefix-sum offsets recomputed by the harness; Jacobian off-diagonal blocks must be exact zeros (outputs pre-filled with NaN); element<i>() views must alias the prefix-sum offset')
+    rule = ('cells = (layout, input of the bundle lattice) x ~45 operations; non-trivial = non-zero rotation in some element')
+    explanation = 'explicit enumeration of the layout matrix on the real code; oracle = per-element operation + integer prefix sums of the documented sizes'
+    assumptions = ['per-element operations themselves are judged by C01-C07; C11 judges only the direct-product structure']
+
+    def layouts(self, tier):
+        L = [[a] for a in ELEM8] + [[a, b] for a in ELEM8 for b in ELEM8]
+        L += [['R1', g, 'R3'] for g in ['SO2', 'SE2', 'SO3', 'SE3', 'SE_2_3', 'SGal3']]
+        L += [['SO3', 'SO3', 'SO3'], ['SE2', 'R2', 'SE2'], ['R2', 'SO3', 'R1'], ['SE2', 'SGal3', 'SE_2_3'], ['SO2', 'R1', 'SO2', 'R3'], ['SE3', 'SO3', 'R3', 'SO2'],
+              ['SE2', 'SO2', 'SE3', 'SO3'], ['R7', 'SE_2_3', 'R2']]
+        if tier == 'thorough':
+            L += [[a, b, c] for a in ELEM8 for b in ELEM8 for c in ELEM8]
+        seen, out = set(), []
+        for l in L:
+            if tuple(l) not in seen:
+                seen.add(tuple(l))
+                out.append(l)
+        return out
+
+    def units(self, tier):
+        us = [bundle_unit('checks/c11.cpp', l, 'double') for l in self.layouts(tier)]
+        fl = [['SO2'], ['SGal3'], ['SE2', 'SO3'], ['SO3', 'SE2'], ['SGal3', 'R1'], ['R3', 'SE_2_3'], ['SE3', 'SO2'], ['R1', 'SE3', 'R3'], ['SE2', 'SGal3', 'SE_2_3'], ['SO2', 'R1', 'SO2', 'R3']]
+        us += [bundle_unit('checks/c11.cpp', l, 'float') for l in fl]
+        return us
+
+
+_SPECS = {'C08': C08, 'C09': C09, 'C10': C10, 'C11': C11, 'C01': C01, 'C02': C02, 'C03': C03, 'C04': C04, 'C05': C05, 'C06': C06, 'C07': C07}
 
 
 def get(prop):
